@@ -127,7 +127,7 @@ type RIB struct {
 	disableForwardReferences bool
 
 	// pendMu protects the pendingEntries map.
-	pendMu sync.RWMutex
+	pendMu pendingLock
 	// pendingEntries is the set of entries that have been requested by
 	// the AddXXX methods that cannot yet be installed in the RIB because they do
 	// not resolve. Resolve is defined as canResolve returning true - which means that:
@@ -225,6 +225,19 @@ func (r *RIBHolder) String() string {
 		return "invalid RIB"
 	}
 	return string(js)
+}
+
+// pendingLock is the lock of the set of pending entries of a RIB.
+type pendingLock struct {
+	// RWMutex protects the pendingEntries map itself.
+	sync.RWMutex
+	// whole serialises the calls that work on the set of pending entries as a
+	// whole: AddEntry, which retries the pending entries from a snapshot after
+	// every install, and ClearPending. Were two of them to run at the same time,
+	// one could install, acknowledge and dequeue a pending entry whilst the other
+	// - having found it unresolvable a moment earlier - queues it again, and the
+	// entry would be installed and acknowledged a second time later.
+	whole sync.Mutex
 }
 
 // RIBOpt is an interface that is implemented for options to the RIB.
@@ -463,6 +476,9 @@ func (r *RIB) AddEntry(ni string, op *spb.AFTOperation) ([]*OpResult, []*OpResul
 	if ni == "" {
 		return nil, nil, fmt.Errorf("invalid network instance, %s", ni)
 	}
+
+	r.pendMu.whole.Lock()
+	defer r.pendMu.whole.Unlock()
 
 	oks, fails := []*OpResult{}, []*OpResult{}
 	checked := map[uint64]bool{}
@@ -937,6 +953,8 @@ func (r *RIB) rmPendingOp(op *spb.AFTOperation) {
 // ClearPending removes all operations that are pending (held because they have
 // unresolved dependencies) from the RIB. No result will be returned for them.
 func (r *RIB) ClearPending() {
+	r.pendMu.whole.Lock()
+	defer r.pendMu.whole.Unlock()
 	r.pendMu.Lock()
 	defer r.pendMu.Unlock()
 	r.pendingEntries = map[uint64]*pendingEntry{}
